@@ -207,7 +207,18 @@ func typedSamples(w *world) map[uint16][]byte {
 
 // absurdTxs enumerates the transaction alphabet. quickOnly keeps the whole-payload variants and
 // drops the per-field ones of the big payloads.
+var absurdTxCache = map[bool][]namedTx{}
+
 func absurdTxs(w *world, thorough bool) []namedTx {
+	if l, ok := absurdTxCache[thorough]; ok {
+		return l
+	}
+	l := buildAbsurdTxs(w, thorough)
+	absurdTxCache[thorough] = l
+	return l
+}
+
+func buildAbsurdTxs(w *world, thorough bool) []namedTx {
 	var l []namedTx
 	u1, u2 := node.User(1), node.User(2)
 	add := func(name string, r *rtx, sign bool) {
@@ -497,8 +508,8 @@ func absurdBlocks(w *world, thorough bool) []namedBlock {
 
 func absurdFamilies(w *world) []*Family {
 	var fams []*Family
-	add := func(name string, cost int, gen func(thorough bool, emit func(Case))) {
-		fams = append(fams, &Family{Name: "msg/" + name, Cost: cost, Gen: func(_ *world, th bool, emit func(Case)) { gen(th, emit) }})
+	add := func(name string, cost int, gen func(thorough bool, emit func(func() Case))) {
+		fams = append(fams, &Family{Name: "msg/" + name, Cost: cost, Gen: func(_ *world, th bool, emit func(func() Case)) { gen(th, emit) }})
 	}
 	one := func(name string, code uint32, payload []byte, opt playOpt) Case {
 		return Case{Name: name, Run: func(m *meter) string { return playMsgs(m, []wire{{code, payload}}, opt) }}
@@ -511,39 +522,39 @@ func absurdFamilies(w *world) []*Family {
 		}
 		return w.hash(n)
 	}
-	add("03/absurd", 1, func(th bool, emit func(Case)) {
+	add("03/absurd", 1, func(th bool, emit func(func() Case)) {
 		for _, ch := range heights {
 			for _, sh := range heights {
 				for _, chn := range hashes {
 					for _, shn := range hashes {
-						emit(one(fmt.Sprintf("msg/03/absurd/cur=%d:%s/sta=%d:%s", ch, chn, sh, shn), 0x03, enc(&network.LatestStatus{CurHeight: ch, CurHash: hv(chn), StaHeight: sh, StaHash: hv(shn)}), playOpt{}))
+						emit(func() Case { return one(fmt.Sprintf("msg/03/absurd/cur=%d:%s/sta=%d:%s", ch, chn, sh, shn), 0x03, enc(&network.LatestStatus{CurHeight: ch, CurHash: hv(chn), StaHeight: sh, StaHash: hv(shn)}), playOpt{}) })
 					}
 				}
 			}
 		}
 	})
-	add("05/absurd", 1, func(th bool, emit func(Case)) {
+	add("05/absurd", 1, func(th bool, emit func(func() Case)) {
 		for _, h := range heights {
 			for _, hn := range hashes {
-				emit(one(fmt.Sprintf("msg/05/absurd/%d:%s", h, hn), 0x05, enc(&network.BlockHashData{Height: h, Hash: hv(hn)}), playOpt{}))
+				emit(func() Case { return one(fmt.Sprintf("msg/05/absurd/%d:%s", h, hn), 0x05, enc(&network.BlockHashData{Height: h, Hash: hv(hn)}), playOpt{}) })
 			}
 		}
 	})
 	ranges := []uint32{0, 1, 2, 3, 10, 11, 99, 100000, 1 << 31, 1<<32 - 1}
 	for _, code := range []uint32{0x07, 0x0e} {
 		code := code
-		add(fmt.Sprintf("%02x/absurd", code), 2, func(th bool, emit func(Case)) {
+		add(fmt.Sprintf("%02x/absurd", code), 2, func(th bool, emit func(func() Case)) {
 			for _, from := range ranges {
 				for _, to := range ranges {
-					emit(one(fmt.Sprintf("msg/%02x/absurd/from=%d/to=%d", code, from, to), code, enc(&network.GetBlocksData{From: from, To: to}), playOpt{}))
+					emit(func() Case { return one(fmt.Sprintf("msg/%02x/absurd/from=%d/to=%d", code, from, to), code, enc(&network.GetBlocksData{From: from, To: to}), playOpt{}) })
 				}
 			}
 		})
 	}
-	add("0a/absurd", 1, func(th bool, emit func(Case)) {
+	add("0a/absurd", 1, func(th bool, emit func(func() Case)) {
 		for _, h := range heights {
 			for _, hn := range hashes {
-				emit(one(fmt.Sprintf("msg/0a/absurd/%d:%s", h, hn), 0x0a, enc(&network.GetConfirmInfo{Height: h, Hash: hv(hn)}), playOpt{}))
+				emit(func() Case { return one(fmt.Sprintf("msg/0a/absurd/%d:%s", h, hn), 0x0a, enc(&network.GetConfirmInfo{Height: h, Hash: hv(hn)}), playOpt{}) })
 			}
 		}
 	})
@@ -567,7 +578,7 @@ func absurdFamilies(w *world) []*Family {
 		m["v=4"] = v4
 		return m
 	}
-	add("09/absurd", 1, func(th bool, emit func(Case)) {
+	add("09/absurd", 1, func(th bool, emit func(func() Case)) {
 		for _, hn := range hashes {
 			for _, h := range heights {
 				ss := sigs(hv(hn))
@@ -577,17 +588,17 @@ func absurdFamilies(w *world) []*Family {
 				}
 				sort.Strings(names)
 				for _, sn := range names {
-					emit(one(fmt.Sprintf("msg/09/absurd/%s/height=%d/sig=%s", hn, h, sn), 0x09, enc(&network.BlockConfirmData{Hash: hv(hn), Height: h, SignInfo: ss[sn]}), playOpt{}))
+					emit(func() Case { return one(fmt.Sprintf("msg/09/absurd/%s/height=%d/sig=%s", hn, h, sn), 0x09, enc(&network.BlockConfirmData{Hash: hv(hn), Height: h, SignInfo: ss[sn]}), playOpt{}) })
 				}
 			}
 		}
 		// signatures of the wrong length (the wire type is a 65 byte array)
 		for _, n := range []int{0, 1, 64, 66, 130, 100000} {
 			body := append(append(append([]byte{}, enc(w.hash("a1"))...), enc(uint32(2))...), enc(bytes.Repeat([]byte{1}, n))...)
-			emit(one(fmt.Sprintf("msg/09/absurd/sig-length=%d", n), 0x09, append(listHeader(len(body)), body...), playOpt{}))
+			emit(func() Case { return one(fmt.Sprintf("msg/09/absurd/sig-length=%d", n), 0x09, append(listHeader(len(body)), body...), playOpt{}) })
 		}
 	})
-	add("0b/absurd", 2, func(th bool, emit func(Case)) {
+	add("0b/absurd", 2, func(th bool, emit func(func() Case)) {
 		for _, hn := range hashes {
 			for _, h := range []uint32{0, 2, 3, 1<<32 - 1} {
 				ss := sigs(hv(hn))
@@ -615,12 +626,12 @@ func absurdFamilies(w *world) []*Family {
 				}
 				sort.Strings(names)
 				for _, pn := range names {
-					emit(one(fmt.Sprintf("msg/0b/absurd/%s/height=%d/pack=%s", hn, h, pn), 0x0b, enc(&network.BlockConfirms{Height: h, Hash: hv(hn), Pack: packs[pn]}), playOpt{}))
+					emit(func() Case { return one(fmt.Sprintf("msg/0b/absurd/%s/height=%d/pack=%s", hn, h, pn), 0x0b, enc(&network.BlockConfirms{Height: h, Hash: hv(hn), Pack: packs[pn]}), playOpt{}) })
 				}
 			}
 		}
 	})
-	add("0d/absurd", 1, func(th bool, emit func(Case)) {
+	add("0d/absurd", 1, func(th bool, emit func(func() Case)) {
 		good := nodeString(node.K("peer-x"), "10.1.2.3:7001")
 		id := good[:128]
 		var nodes []namedPayload
@@ -667,22 +678,22 @@ func absurdFamilies(w *world) []*Family {
 			return l
 		}()...)
 		for _, p := range nodes {
-			emit(one("msg/0d/absurd/"+p.name, 0x0d, p.b, playOpt{}))
+			emit(func() Case { return one("msg/0d/absurd/"+p.name, 0x0d, p.b, playOpt{}) })
 		}
 		for _, seq := range []uint64{0, 1, 1 << 32, 1<<64 - 1} {
-			emit(one(fmt.Sprintf("msg/0c/absurd/seq=%d", seq), 0x0c, enc(&network.DiscoverReqData{Sequence: uint(seq)}), playOpt{}))
-			emit(one(fmt.Sprintf("msg/0d/absurd/seq=%d", seq), 0x0d, enc(&network.DiscoverResData{Sequence: uint(seq), Nodes: []string{good}}), playOpt{}))
+			emit(func() Case { return one(fmt.Sprintf("msg/0c/absurd/seq=%d", seq), 0x0c, enc(&network.DiscoverReqData{Sequence: uint(seq)}), playOpt{}) })
+			emit(func() Case { return one(fmt.Sprintf("msg/0d/absurd/seq=%d", seq), 0x0d, enc(&network.DiscoverResData{Sequence: uint(seq), Nodes: []string{good}}), playOpt{}) })
 		}
 	})
 	// transactions: into the pool (TxsMsg), executed by a validator (a byzantine deputy's block that
 	// carries them), executed by the node's own miner (TxsMsg, then the node mines)
-	add("06/absurd", 3, func(th bool, emit func(Case)) {
+	add("06/absurd", 3, func(th bool, emit func(func() Case)) {
 		for _, t := range absurdTxs(w, th) {
 			t := t
-			emit(Case{Name: "msg/06/absurd/" + t.name + "/pool", Run: func(m *meter) string {
+			emit(func() Case { return Case{Name: "msg/06/absurd/" + t.name + "/pool", Run: func(m *meter) string {
 				return playMsgs(m, []wire{{0x06, enc([]*rtx{t.r})}}, playOpt{})
-			}})
-			emit(Case{Name: "msg/06/absurd/" + t.name + "/in-block", Run: func(m *meter) string {
+			}} })
+			emit(func() Case { return Case{Name: "msg/06/absurd/" + t.name + "/in-block", Run: func(m *meter) string {
 				tx, err := t.r.tx()
 				if err != nil {
 					return "06/not-decodable"
@@ -693,28 +704,28 @@ func absurdFamilies(w *world) []*Family {
 					return "06/not-encodable"
 				}
 				return playMsgs(m, []wire{{0x08, p}}, playOpt{})
-			}})
+			}} })
 		}
 		// lists
 		for _, n := range []int{0, 2, 1000} {
 			n := n
-			emit(Case{Name: fmt.Sprintf("msg/06/absurd/list/same-x%d", n), Run: func(m *meter) string {
+			emit(func() Case { return Case{Name: fmt.Sprintf("msg/06/absurd/list/same-x%d", n), Run: func(m *meter) string {
 				var l types.Transactions
 				for i := 0; i < n; i++ {
 					l = append(l, w.txNew)
 				}
 				return playMsgs(m, []wire{{0x06, enc(l)}}, playOpt{})
-			}})
-			emit(Case{Name: fmt.Sprintf("msg/06/absurd/list/distinct-x%d", n), Run: func(m *meter) string {
+			}} })
+			emit(func() Case { return Case{Name: fmt.Sprintf("msg/06/absurd/list/distinct-x%d", n), Run: func(m *meter) string {
 				var l types.Transactions
 				for i := 0; i < n; i++ {
 					l = append(l, node.Transfer(node.User(1), node.User(2).Addr, big.NewInt(int64(i+1)), w.exp+100))
 				}
 				return playMsgs(m, []wire{{0x06, enc(l)}}, playOpt{})
-			}})
+			}} })
 		}
 	})
-	add("06/mined", 60, func(th bool, emit func(Case)) {
+	add("06/mined", 60, func(th bool, emit func(func() Case)) {
 		// the miner path: one representative per payload class (thorough: every transaction)
 		seen := map[string]bool{}
 		for _, t := range absurdTxs(w, th) {
@@ -729,37 +740,37 @@ func absurdFamilies(w *world) []*Family {
 				}
 				seen[cls] = true
 			}
-			emit(Case{Name: "msg/06/mined/" + t.name, Run: func(m *meter) string {
+			emit(func() Case { return Case{Name: "msg/06/mined/" + t.name, Run: func(m *meter) string {
 				return playMsgs(m, []wire{{0x06, enc([]*rtx{t.r})}}, playOpt{mine: true})
-			}})
+			}} })
 		}
 	})
-	add("08/absurd", 4, func(th bool, emit func(Case)) {
+	add("08/absurd", 4, func(th bool, emit func(func() Case)) {
 		for _, nb := range absurdBlocks(w, th) {
 			nb := nb
-			emit(Case{Name: "msg/08/absurd/" + nb.name, Run: func(m *meter) string {
+			emit(func() Case { return Case{Name: "msg/08/absurd/" + nb.name, Run: func(m *meter) string {
 				b := byzBlock(w, nb.mod, nb.fix, nb.sign)
 				p, ok := encBlocks(b)
 				if !ok {
 					return "08/not-encodable"
 				}
 				return playMsgs(m, []wire{{0x08, p}}, playOpt{})
-			}})
+			}} })
 		}
 		// list shapes
 		for _, n := range []int{0, 2, 100} {
 			n := n
-			emit(Case{Name: fmt.Sprintf("msg/08/absurd/list/C-x%d", n), Run: func(m *meter) string {
+			emit(func() Case { return Case{Name: fmt.Sprintf("msg/08/absurd/list/C-x%d", n), Run: func(m *meter) string {
 				var l types.Blocks
 				for i := 0; i < n; i++ {
 					l = append(l, w.blocks["C"])
 				}
 				return playMsgs(m, []wire{{0x08, enc(l)}}, playOpt{})
-			}})
+			}} })
 		}
-		emit(Case{Name: "msg/08/absurd/list/all-fixture-blocks-reversed", Run: func(m *meter) string {
+		emit(func() Case { return Case{Name: "msg/08/absurd/list/all-fixture-blocks-reversed", Run: func(m *meter) string {
 			return playMsgs(m, []wire{{0x08, enc(types.Blocks{w.blocks["O2"], w.blocks["O"], w.blocks["C"], w.blocks["b1"], w.blocks["a1"], w.blocks["f"], w.blocks["g"]})}}, playOpt{waitQueue: true})
-		}})
+		}} })
 	})
 	return fams
 }
